@@ -9,7 +9,7 @@ ID = "C13"
 LEVEL = "exploration"
 RULE = ("cases are histories of up to 12 operations over up to 3 lists ([int...], [str...], nested [[int...]...], [int?...]) "
         "and 2 maps (map[str,int]) and their aliases / clones: push, remove, index read / assignment / op=, reverse, join "
-        "(incl. self- and alias-join), clear, clone, map / filter with logging and capturing callbacks (also closures made by a factory that outlived the frame they captured from, one of them counting its calls), index_of, len, ==, "
+        "(incl. self- and alias-join), clear, clone, map / filter with logging and capturing callbacks (also closures made by a factory that outlived the frame they captured from, one of them counting its calls), index_of, len, ==, `is` (aliases, clones, fresh and empty lists), "
         "an optional-element list that also stores present optionals produced by built-ins next to a shadow list of the same plain values (the two must stay ==), "
         "a map[int?, int] addressed through plain keys, nil and present optionals produced by built-ins, a [str?...] receiving what map.remove hands back; string concatenation of elements; map literal, index read/assignment, replace, remove, contains_key, len, keys, "
         "values, pairs, clear, clone; indices from {-1, 0, 1, len-1, len, len+1}; every live container is printed after each "
@@ -101,7 +101,7 @@ def cases(draw):
     steps = g.int(3, 12)
     for step in range(steps):
         ops = [(5, "push"), (2, "remove"), (3, "read"), (3, "assign"), (2, "opassign"), (2, "reverse"), (2, "join"), (1, "clear"),
-               (2, "clone"), (2, "alias"), (2, "map"), (2, "filter"), (2, "index_of"), (1, "len"), (2, "eq"), (1, "newlist"), (1, "concat"),
+               (2, "clone"), (2, "alias"), (2, "map"), (2, "filter"), (2, "index_of"), (1, "len"), (2, "eq"), (2, "is"), (1, "newlist"), (1, "concat"),
                (2, "nested"), (1, "optlist"), (1, "optkeys"), (1, "newmap"), (2, "litfrom"), (2, "mapfrom"), (2, "storefrom")]
         if strs:
             ops += [(2, "strop")]
@@ -186,6 +186,17 @@ def cases(draw):
             stmts.append(("print", ("mcall", V(l), "len", [])))
         elif op == "eq":
             stmts.append(("print", ("bin", "==", V(l), V(g.choice(ints)))))
+        elif op == "is":
+            # identity: true for aliases (and for what join returns), false for clones, fresh lists - also EMPTY ones - and filter results
+            other = g.choice(ints)
+            stmts.append(("print", ("bin", "is", V(l), V(other))))
+            if g.chance(40):
+                name = "em%d" % step
+                stmts.append(("decl", name, LI, ("list", []), ()))
+                stmts.append(("print", ("bin", "is", V(name), V(g.choice(ints)))))
+                ints.append(name)
+                boundary = True
+            g.label("is")
         elif op == "newlist" and len(ints) < 8:
             boundary |= new_int_list("n%d" % step)
         elif op == "concat":
@@ -230,7 +241,7 @@ def cases(draw):
             if not has_nested:
                 stmts.append(("decl", "ln", ("list", LI), ("list", [("list", [I(1)]), ("list", [I(2), I(3)])]), ()))
                 has_nested = True
-            k = g.choice(["pushlist", "inner", "len", "mapfirst"])
+            k = g.choice(["pushlist", "inner", "len", "mapfirst", "indexof-fresh", "indexof-clone", "indexof-alias", "indexof-grown"])
             g.label("nested-list")
             if k == "pushlist":
                 stmts.append(("expr", ("mcall", V("ln"), "push", [V(l)])))
@@ -241,6 +252,23 @@ def cases(draw):
                 stmts.append(("expr", ("mcall", V(name), "push", [I(g.int(20, 29))])))
                 ints.append(name)
                 alias_pairs += 1
+            elif k.startswith("indexof"):
+                # lists are found by CONTENTS: an equal list that is not the stored one (a fresh literal, a clone, a list that
+                # became equal by a push), the stored list itself, and - first match wins - an equal list in front of an alias
+                g.label("nested-list:" + k)
+                if k == "indexof-fresh":
+                    needle = ("list", [I(2), I(3)])
+                elif k == "indexof-clone":
+                    needle = ("mcall", ("index", V("ln"), ("bin", "-", ("mcall", V("ln"), "len", []), I(1))), "clone", [])
+                elif k == "indexof-alias":
+                    stmts.append(("expr", ("mcall", V("ln"), "push", [V(l)])))
+                    needle = V(l)
+                else:
+                    name = "gr%d" % step
+                    stmts.append(("decl", name, LI, ("list", [I(2)]), ()))
+                    stmts.append(("expr", ("mcall", V(name), "push", [I(3)])))
+                    needle = V(name)
+                stmts.append(("print", ("or", ("mcall", V("ln"), "index_of", [needle]), V("neg1"))))
             elif k == "mapfirst":
                 name = "mf%d" % step
                 stmts.append(("decl", name, None, ("mcall", V("ln"), "map", [V("first")]), ()))
